@@ -485,3 +485,28 @@ verus_unit(
                               text="ensures: out-of-data iff a word is needed and none is left (coder unchanged); else symbol = model(next P-bit chunk), compressed side = old minus the chunk (independent of model and remainders), remainders step with flush iff >= 2^(sb-P), head invariants kept [all P <= Word bits]"),
     },
 )
+
+# ---------------- Verus unit: chain coder encoding step (chain.rs)
+_CH_ENC = "Encode<PRECISION>\n    for ChainCoder<Word, State, CompressedBackend, RemaindersBackend, PRECISION>"
+verus_unit(
+    name="chain_enc", template="chain_enc_unit.rs.tmpl",
+    widths=["u8_u16", "u8_u32", "u16_u32", "u16_u64", "u32_u64"],
+    slots={
+        "REFILL": dict(file="src/stream/chain.rs", anchor="fn refill_remainders_head", fn="refill_remainders_head", extra=[
+            (r"\.read\(\)\s*\.map_err\(\|err\| CoderError::Backend\(BackendError::Remainders\(err\)\)\)\?\s*\.ok_or\(CoderError::Frontend\(EncoderFrontendError::OutOfRemainders\)\)\?", ".read().ber()?.ok_or_out_of_remainders()?", 1),
+            (r"word\.into\(\)", "word.w2s()", 1),
+        ]),
+        "ENCODE": dict(file="src/stream/chain.rs", anchor=_CH_ENC, fn="encode_symbol", extra=[
+            (r"\.ok_or\(CoderError::Frontend\(EncoderFrontendError::ImpossibleSymbol\)\)\?", ".ok_or_impossible()?", 1),
+            (r"self\.refill_remainders_head\(\)\?", "refill_remainders_head(self)?", 1),
+            (r"\.as_\(\)\s*\.as_\(\)", ".s2p()", 1),
+            (r"\(left_sided_cumulative \+ remainder\)\.into\(\)", "(left_sided_cumulative + remainder).p2w()", 1),
+            (r"\.write\(word\)\s*\.map_err\(BackendError::Compressed\)\?", ".write(word).bec()?", 1),
+        ]),
+    },
+    obligations={
+        "refill_remainders_head": dict(own=["C13", "C20"], dep=[], text="ensures: pops the top remainders word into the head ((r << wb) | w); empty => Err(OutOfRemainders), unchanged"),
+        "encode_symbol": dict(own=["C13", "C09", "C20"], dep=[], kani_twin="chain::u8_u16_p5::enc_dec",
+                              text="ensures: impossible symbol / missing remainders reported with the coder untouched; else refill iff r < p<<(sb-wb-P), quantile = cum + r%p appended as one P-bit chunk to the compressed side, r' = r/p, head invariants kept [all P <= Word bits]"),
+    },
+)
